@@ -61,6 +61,8 @@ def gate_top(itps, molecules, wd, coord=None):
         kw["coordpath" if coord["kind"] == "c" else "coordpath_meta"] = gro
         if coord["res"]:
             kw["build_res"] = list(coord["res"])
+    if coord and coord.get("ign"):
+        kw["ignore"] = list(coord["ign"])
     orig = gc.load_build_files
 
     def stop(*a, **k):
@@ -88,7 +90,8 @@ def _bonds_only(links):
 
 
 def _coord_text(co):
-    return "no coordinates" if co["kind"] == "none" else "-%s for %d residues%s" % (co["kind"], co["k"], (" -res " + " ".join(co["res"])) if co["res"] else "")
+    txt = "no coordinates" if co["kind"] == "none" else "-%s for %d residues%s" % (co["kind"], co["k"], (" -res " + " ".join(co["res"])) if co["res"] else "")
+    return txt + ((", -ign " + " ".join(co["ign"])) if co.get("ign") else "")
 
 
 def _multi_gate_chunk(arg):
@@ -115,7 +118,7 @@ def multi_gate_stage(ck, res, tier, rng):
     tops = res.cases()
     mols = res.tagged("GATEMOLS")
     asserted = [t for t in tops if t["must_refuse"] or t["must_pass"]]
-    if len(tops) < 1500 or not mols or not any(t["must_refuse"] for t in tops) or not any(t["must_pass"] for t in tops) or len(asserted) == len(tops):
+    if len(tops) < 2900 or not mols or not any(t["must_refuse"] for t in tops) or not any(t["must_pass"] for t in tops) or len(asserted) == len(tops):
         raise c.MachineryError("gate export: %d cases, %d asserted" % (len(tops), len(asserted)))
     ck.extra["gate_cases_exported"] = {"all": len(tops), "must_refuse": sum(1 for t in tops if t["must_refuse"]), "must_pass": sum(1 for t in tops if t["must_pass"])}
     wd = c.workdir(PROP, "gate_molecules")
@@ -155,9 +158,13 @@ def multi_gate_stage(ck, res, tier, rng):
             return [e["mol"] for e in t["top"]], [e["count"] for e in t["top"]], t["co"]["kind"], t["co"]["k"], list(t["co"]["res"])
         must = [t for t in asserted if shape(t)[2] == "none" and shape(t)[0] in (["d1", "c1", "c2"], ["c1", "d1", "c2"], ["c1", "c2", "d1"], ["c1", "c1", "d1"], ["c1", "d1"], ["c1", "c2"])
                 and all(e["count"] == (2 if e["mol"] == "c1" else 1) for e in t["top"])]
-        must += [t for t in asserted if shape(t)[0] in (["d1"], ["c1", "d2"], ["d1", "c1"], ["c2"]) and shape(t)[1] in ([1], [1, 1]) and shape(t)[2] != "none"]
+        must += [t for t in asserted if shape(t)[0] in (["d1"], ["c1", "d2"], ["d1", "c1"], ["c2"]) and shape(t)[1] in ([1], [1, 1]) and shape(t)[2] != "none" and not t["co"]["ign"]]
+        # an ignored molecule first / last / between the others, the disconnected one not ignored
+        must += [t for t in asserted if t["co"]["ign"] == ["c2"] and all(e["count"] == 1 for e in t["top"])
+                 and shape(t)[0] in (["c2", "d1"], ["d1", "c2"], ["c1", "c2", "d1"], ["c2", "c1", "d1"], ["c2", "c1"], ["c1", "c2", "c1"])]
+        must += [t for t in asserted if t["co"]["ign"] == ["d2"] and all(e["count"] == 1 for e in t["top"]) and shape(t)[0] in (["d2", "d1"], ["d2", "c1", "d1"], ["c1", "d2", "d1"])]
         rest = [t for t in asserted if t not in must]
-        pick = must + rng.sample(rest, min(len(rest), 170))
+        pick = must + rng.sample(rest, min(len(rest), 200))
     for bad, n in c.pmap(_multi_gate_chunk, [(ch, itps, str(k)) for k, ch in enumerate(c.chunks(pick, c.NPROC))]):
         ck.evaluations += n
         ck.extra["multi_molecule_gate_runs"] = ck.extra.get("multi_molecule_gate_runs", 0) + n
@@ -236,8 +243,8 @@ def _chunk(arg):
     for idx, case in items:
         inp, exp = case["input"], case["expected"]
         ff = ffs[inp["ff"] - 1]
-        syntax = "itp" if fam == "E" else ("ff", "mixed")[idx % 2]
-        paths = lu.write_ff(wd, ff["blocks"], ff["links"], syntax, idx % 2)
+        syntax = "itp" if fam == "E" else "multi" if "multi" in ff else ("ff", "mixed")[idx % 2]
+        paths = lu.write_ff(wd, ff["blocks"], ff["links"], syntax, ff["multi"] if "multi" in ff else idx % 2)
         if mode == "processors":
             obs = lu.run_processors(inp, ff["blocks"], ff["links"], paths)
             diffs, known = check_missing(inp, exp, obs, ff["links"], False)
@@ -333,9 +340,12 @@ def run(tier):
     ck.stage("TLC: models, sensitivity runs, exports")
     jobs = [("export_M", "MC_Links", "Lk_export_M.cfg", 4, {}), ("export_B", "MC_Links", "Lk_export_B.cfg", 3, {}), ("export_E", "MC_Links", "Lk_export_E.cfg", 2, {}),
             ("export_N", "MC_Links", "Lk_export_N.cfg", 3, {}), ("modelN", "MC_Links", "Lk_small_N.cfg", 2, {}),
+            ("export_I", "MC_Links", "Lk_export_I.cfg", 1, {}), ("modelI", "MC_Links", "Lk_small_I.cfg", 1, {}),
+            ("dev_SkipSameItp", "MC_Links", "Lk_dev_SkipSameItp.cfg", 1, {"check": False}),
             ("dev_OrderedPairs", "MC_Links", "Lk_dev_OrderedPairs.cfg", 1, {"check": False}),
             ("gate", "MC_Links", "Lk_gate.cfg", 1, {}), ("dev_GateOnce", "MC_Links", "Lk_dev_GateOnce.cfg", 1, {"check": False}),
-            ("dev_GateBuildOnly", "MC_Links", "Lk_dev_GateBuildOnly.cfg", 1, {"check": False}), ("dev_MissingCache", "MC_Links", "Lk_dev_MissingCache.cfg", 1, {"check": False}),
+            ("dev_GateBuildOnly", "MC_Links", "Lk_dev_GateBuildOnly.cfg", 1, {"check": False}),
+            ("dev_GateStopsAtIgnored", "MC_Links", "Lk_dev_GateStopsAtIgnored.cfg", 1, {"check": False}), ("dev_MissingCache", "MC_Links", "Lk_dev_MissingCache.cfg", 1, {"check": False}),
             ("missing", "MC_Links", "Lk_missing.cfg", 2, {}), ("modelM", "MC_Links", "Lk_small_M.cfg", 3, {}),
             ("devfams", "MC_Links", "Lk_devfams.cfg", 1, {"coverage": True}),
             ("dev_Degree", "MC_Links", "Lk_dev_Degree.cfg", 1, {"check": False}), ("dev_missing", "MC_Links", "Lk_missing_dev.cfg", 1, {"check": False})]
@@ -351,14 +361,17 @@ def run(tier):
         raise c.MachineryError("action FindMissing never taken")
     ck.model_must_hold(results["modelN"], "MissingIsExpected/BondXorMissing with node keys that are a permutation of the residue ids")
     ck.model_must_refute(results["dev_OrderedPairs"], "MissingIsExpected", "independent seed C10-2: joined residue pairs compared as ordered pairs")
-    ck.model_must_hold(results["gate"], "GateIsExpected: refuse whenever something is generated for a disconnected molecule, pass connected ones (1,720 cases)")
+    ck.model_must_hold(results["gate"], "GateIsExpected: refuse whenever something is generated for a disconnected, not ignored molecule wherever it stands, pass connected ones (3,000 cases)")
+    ck.model_must_hold(results["modelI"], "MissingIsExpected/BondXorMissing/FinalIsExpected with consecutive copies of a two-residue from_itp block")
+    ck.model_must_refute(results["dev_SkipSameItp"], "MissingIsExpected", "independent seed5-C10-1: residue pairs with the same from_itp value are not examined")
+    ck.model_must_refute(results["dev_GateStopsAtIgnored"], "GateIsExpected", "independent seed5-C10-2: the gate pass ends at the first ignored molecule")
     ck.model_must_refute(results["dev_GateBuildOnly"], "GateIsExpected", "independent seed3-C10-2: molecules without a residue to build are exempt")
     ck.model_must_refute(results["dev_MissingCache"], "MissingIsExpected", "independent seed3-C10-1: candidate atoms remembered from the first evaluation")
     ck.model_must_refute(results["dev_GateOnce"], "GateIsExpected", "independent seed2-C10-1: only the first molecule of the list is inspected")
     ck.model_must_refute(results["dev_Degree"], "MissingIsExpected", "degree filter compares the wrong way (m12), after link application")
     ck.model_must_refute(results["dev_missing"], "MissingIsExpected", "degree filter compares the wrong way (m12), arbitrary edge sets")
     quick = tier == "quick"
-    for fam, n_proc, n_gp in (("M", 2500 if quick else None, 260 if quick else 3000), ("N", 1200 if quick else None, 200 if quick else 2000), ("B", 500 if quick else None, 80 if quick else 800),
+    for fam, n_proc, n_gp in (("M", 2500 if quick else None, 260 if quick else 3000), ("N", 1200 if quick else None, 200 if quick else 2000), ("I", None, None), ("B", 500 if quick else None, 80 if quick else 800),
                               ("E", 200 if quick else None, 60 if quick else 680)):
         ck.stage("replay family %s" % fam)
         res = results["export_" + fam]
